@@ -347,7 +347,7 @@ def qbad (u : Bool) : List Nat → Bool
 parenthesis. -/
 def QDrop (r r2 : List Nat) : Prop :=
   ∃ x p, r = x :: (p ++ r2) ∧ (x = 0x2A ∨ x = 0x2B ∨ x = 0x3F ∨ x = 0x7B) ∧
-    ∀ c ∈ p, c ≠ 0x28 ∧ c ≠ 0x29 ∧ c ≠ 0x5C ∧ c ≠ 0x5B ∧ c ≠ 0x5D
+    ∀ c ∈ p, c ≠ 0x28 ∧ c ≠ 0x29 ∧ c ≠ 0x5C ∧ c ≠ 0x5B ∧ c ≠ 0x5D ∧ c ≠ 0x7C
 
 def lazyQ (r : List Nat) : List Nat := match r with | 0x3F :: r' => r' | _ => r
 
